@@ -979,10 +979,8 @@ func runC18(c *Ctx) {
 	}
 	expectCallers := func(key string, allowed ...string) {
 		got := callersOf("kv/aof", key)
-		al := map[string]bool{}
-		for _, a := range allowed {
-			al[a] = true
-		}
+		// the allowed functions and the helpers only they use
+		al := onlyCalledFrom(c, "kv/aof", allowed...)
 		bad := []string{}
 		for g := range got {
 			if !al[g] {
